@@ -143,3 +143,102 @@ Theorem C02_cover_from_start_partial : forall C, c_faults C = [] -> forall ops w
                          wf_fs w' /\ Cover C (w_fs w') k' r'.
 Proof. exact cover_from_start. Qed.
 Print Assumptions C02_cover_from_start_partial.
+
+(* ---- 2d. the probe: from a synchronised state, creating a fresh file [name] in ANY directory in scope makes the reader
+   produce, first, a raw IN_CREATE event whose src_path is the real path d/name; the emitter turns it into
+   FileCreatedEvent(d/name) + DirModifiedEvent(d). *)
+Theorem C02_probe : forall C w k r de name w', RSync C w k r -> c_mask C = WATCHDOG_ALL ->
+  In de (w_fs w) -> f_dir de = true -> scope C (f_path de) -> valid_name name = true ->
+  let p := f_path de ++ sep :: name in
+  apply_op w (Touch p) = Some w' ->
+  let k1 := kernel_op k (w_fs w) (Touch p) in
+  exists wd rest,
+    let ev := {| r_wd := wd; r_mask := IN_CREATE; r_cookie := 0; r_name := name; r_path := p |} in
+    read_batch C (w_fs w') (r, drainq k1, []) (k_queue k1) = Done (r, drainq k1, ev :: rest) /\
+    forall full rec content, emit_single full rec (c_root C) content ev = ([mk FileCreated p []; parent_modified p], false).
+Proof. exact probe. Qed.
+Print Assumptions C02_probe.
+
+(* non-recursive watch: creating something in a directory other than the root produces no kernel event at all,
+   and every kernel watch is the root's *)
+Theorem C02_flat : forall C w k r p w', RSync C w k r -> c_recursive C = false -> dirname p <> c_root C ->
+  (apply_op w (Touch p) = Some w' -> k_queue (kernel_op k (w_fs w) (Touch p)) = []) /\
+  (apply_op w (Mkdir p) = Some w' -> k_queue (kernel_op k (w_fs w) (Mkdir p)) = []).
+Proof. exact flat. Qed.
+Print Assumptions C02_flat.
+
+Theorem C02_flat_watches : forall C w k r, RSync C w k r -> c_recursive C = false ->
+  forall kw, In kw (k_watches k) -> alookup N.eqb (kw_wd kw) (pfw r) = Some (c_root C).
+Proof. exact flat_watches. Qed.
+Print Assumptions C02_flat_watches.
+
+(* ---- 2e. the pinned code (c_fix_movein = false): a directory moved in from outside is never watched - Cover fails *)
+Theorem C02_pinned_movein_refuted :
+  exists C w ops, c_fix_movein C = false /\ c_fix_ignored C = true /\ c_fix_simulate C = true /\ c_faults C = [] /\
+    mask_ok C /\ wf_fs w /\ fisdir (c_root C) (w_fs w) = true /\
+    exists r0 k0 w' k' r', construct C kinit (w_fs w) = Some (r0, k0) /\ rrun C w k0 r0 ops = Some (w', k', r') /\
+                           ~ Cover C (w_fs w') k' r'.
+Proof. exact pinned_movein_refuted. Qed.
+Print Assumptions C02_pinned_movein_refuted.
+
+(* pinned code, mkdir a; rename a b before the first read: b is never watched *)
+Theorem C02_pinned_mkdir_rename_refuted :
+  exists s0 s obs, pinit (Px false) w0 = Some s0 /\
+    prun (Px false) s0 [AOp (Mkdir (sub pR 97)); AOp (Rename (sub pR 97) (sub pR 98)); ARead 3] [] = Done (s, obs) /\
+    k_queue (p_k s) = [] /\ ~ Cover (cfgx true false) (w_fs (p_world s)) (p_k s) (p_r s).
+Proof. exact mkdir_rename_pinned_refuted. Qed.
+Print Assumptions C02_pinned_mkdir_rename_refuted.
+
+(* the operation kinds of the FULL step statement that are not proved in general, stated as Props, with the
+   repaired model's behaviour on concrete instances below (C02_movein_example, C02_mkdir_rename_example) *)
+Definition C02_step_full : Prop :=
+  forall C, c_faults C = [] -> c_fix_ignored C = true -> c_fix_movein C = true -> c_fix_simulate C = true -> mask_ok C ->
+  forall w k r o w', RSync C w k r -> op_np o -> op_keeps_root C o -> apply_op w o = Some w' ->
+  let k1 := kernel_op k (w_fs w) o in
+  exists r' k' evs, read_batch C (w_fs w') (r, drainq k1, []) (k_queue k1) = Done (r', k', evs) /\
+                    wf_fs w' /\ Cover C (w_fs w') k' r'.
+
+(* ---- non-vacuity *)
+Example C02_w0_wf : wf_fs w0 /\ fisdir (c_root (cfgx true true)) (w_fs w0) = true /\ mask_ok (cfgx true true).
+Proof. split; [exact w0_wf|]. split; [reflexivity|]. repeat split; vm_compute; discriminate. Qed.
+
+(* the repaired code on the moved-in directory tree: the arrived directory and its sub-directory are covered *)
+Example C02_movein_example :
+  exists r0 k0 w' k' r', construct (cfgx true true) kinit (w_fs w0) = Some (r0, k0) /\
+    rrun (cfgx true true) w0 k0 r0 [Rename (sub pO 100) (sub pR 100)] = Some (w', k', r') /\
+    Cover (cfgx true true) (w_fs w') k' r' /\ fisdir (sub (sub pR 100) 101) (w_fs w') = true.
+Proof. exact repaired_movein_example. Qed.
+
+(* the pacing exception: mkdir a; rename a b; then the first read - the repaired MOVED_TO branch watches b *)
+Example C02_mkdir_rename_example :
+  exists s0 s obs, pinit (Px true) w0 = Some s0 /\
+    prun (Px true) s0 [AOp (Mkdir (sub pR 97)); AOp (Rename (sub pR 97) (sub pR 98)); ARead 3] [] = Done (s, obs) /\
+    fisdir (sub pR 98) (w_fs (p_world s)) = true /\ k_queue (p_k s) = [] /\
+    Cover (cfgx true true) (w_fs (p_world s)) (p_k s) (p_r s).
+Proof. exact mkdir_rename_example. Qed.
+
+(* a history that exercises every constructor of covered_op (hypothesis of C02_cover_from_start_partial) *)
+Example C02_ops_covered_nonvacuous :
+  ops_covered (cfgx true true) w0
+    [Mkdir (sub pR 97); Mkdir (sub (sub pR 97) 99); Touch (sub (sub pR 97) 102);
+     Rename (sub pR 97) (sub pR 98);                                   (* directory with a sub-directory and a file *)
+     Rename (sub (sub pR 98) 102) (sub pR 102);                        (* file *)
+     Unlink (sub pR 102); Rmdir (sub (sub pR 98) 99); Rmdir (sub pR 98)].
+Proof.
+  assert (GR : gpath pR) by (split; [discriminate | reflexivity]).
+  assert (Na : forall n, valid_name [n] = true -> npath (sub pR n)) by (intros; now apply npath_sub).
+  assert (Nb : forall m n, valid_name [m] = true -> valid_name [n] = true -> npath (sub (sub pR m) n)).
+  { intros. apply npath_sub; [apply npath_gpath; now apply Na | assumption]. }
+  eapply ops_covered_cons; [vm_compute; reflexivity | apply co_mkdir; now apply Na |].
+  eapply ops_covered_cons; [vm_compute; reflexivity | apply co_mkdir; now apply Nb |].
+  eapply ops_covered_cons; [vm_compute; reflexivity | apply co_quiet; [exact I | now apply Nb] |].
+  eapply ops_covered_cons; [vm_compute; reflexivity | |].
+  { eapply co_rename_dir; try (now apply Na); try reflexivity; try (vm_compute; reflexivity);
+      try (right; vm_compute; reflexivity); try (vm_compute; discriminate). }
+  eapply ops_covered_cons; [vm_compute; reflexivity | |].
+  { eapply co_rename_file; try (now apply Na); try (now apply Nb); try (vm_compute; reflexivity). }
+  eapply ops_covered_cons; [vm_compute; reflexivity | apply co_quiet; [exact I | now apply Na] |].
+  eapply ops_covered_cons; [vm_compute; reflexivity | apply co_rmdir; [now apply Nb | vm_compute; discriminate] |].
+  eapply ops_covered_cons; [vm_compute; reflexivity | apply co_rmdir; [now apply Na | vm_compute; discriminate] |].
+  exact I.
+Qed.
